@@ -37,6 +37,8 @@ type GenOpt struct {
 	// ReadOnly produces 0444/0555 style files at some weight.
 	ReadOnly bool
 	Perms    []uint32
+	// NoOrderBias disables the forced order-sensitive sibling sets.
+	NoOrderBias bool
 }
 
 func DefaultOpt() GenOpt {
@@ -161,7 +163,24 @@ func (g *gen) dir(prefix string, depth int) {
 		return
 	}
 	n := g.r.Range(1, g.o.MaxFanout)
-	for _, nm := range g.names(n) {
+	nms := g.names(n)
+	forceDir := ""
+	if !g.o.NoOrderBias && depth < g.o.MaxDepth && g.o.has(Dir) && g.r.P(1, 3) {
+		// order-sensitive sibling set: directory "a" with children next to "a<byte below '/'>..."
+		forceDir = "a"
+		sib := core.Pick(g.r, []string{"a-b", "a b", "a.b", "a+", "a,", "a!", "a-"})
+		keep := []string{forceDir, sib}
+		for _, x := range nms {
+			if x != forceDir && x != sib {
+				keep = append(keep, x)
+			}
+		}
+		nms = keep
+		if g.budget < 3 {
+			g.budget = 3
+		}
+	}
+	for _, nm := range nms {
 		if g.budget <= 0 {
 			return
 		}
@@ -174,6 +193,12 @@ func (g *gen) dir(prefix string, depth int) {
 			continue
 		}
 		e := Entry{Path: p, Type: g.pickType(depth)}
+		if nm == forceDir {
+			e.Type = Dir
+			if g.budget < 1 {
+				g.budget = 1
+			}
+		}
 		g.meta(&e)
 		switch e.Type {
 		case File:
